@@ -1,5 +1,6 @@
 use crate::diagnostic_emitter::MosResult;
 use crate::impl_request_handler;
+use crate::lsp::DocumentPath;
 use crate::lsp::{LspContext, RequestHandler};
 use dissimilar::{diff, Chunk};
 use lsp_types::{DocumentFormattingParams, DocumentOnTypeFormattingParams, TextEdit, Url};
@@ -35,7 +36,7 @@ impl RequestHandler<lsp_types::request::OnTypeFormatting> for OnTypeFormattingRe
 }
 
 fn do_formatting(ctx: &mut LspContext, uri: &Url) -> Option<Vec<TextEdit>> {
-    let path = uri.to_file_path().unwrap();
+    let path = uri.document_path();
     if ctx.error.is_empty() {
         ctx.codegen().map(|codegen| {
             let codegen = codegen.lock().unwrap();
